@@ -20,7 +20,8 @@ What is recognised (anything else becomes `.unknown`, which no reference term co
 * the small methods: see `SpinnerSkel.CbStep`; `self._cancel_timeout()` and its inlined body `if self._timeout_call: self._timeout_call.cancel()`
   are the same step; `e = TimeoutError(function, timeout); self._failure = Failure(e)` with or without the local.
 * `_get_result`: terminating arms with guards `X is not self._UNSET` (identity; `!=` is `.unknown`), in source order.
-* `_clean`, `_save_signals`, `_restore_signals`, `not_reentrant`, `trap_unhandled_errors`: the statement forms listed in the model file.
+* `_save_signals`: see `save_signals` below (comprehensions or an explicit loop, `getattr` with default + filter or try/except
+  AttributeError); `_clean`, `_restore_signals`, `not_reentrant`, `trap_unhandled_errors`: the statement forms listed in the model file.
 Trusted: this recogniser (a bug here could make a changed source look unchanged) and that the interpreters read the forms as Python does.
 """
 import ast, os
@@ -208,14 +209,69 @@ def with_locals_renamed(stmts):
     return [canon(_Rename(m).visit(copy.deepcopy(s))) for s in stmts]
 
 
+def _filter_ok(test, v, negated=False):
+    """`v` / `v is not None` (negated: `not v` / `v is None`): the signal exists on this platform (signal numbers are never falsy)"""
+    t = U(test)
+    return t in (('not %s' % v, '%s is None' % v, 'not %s is not None' % v) if negated else (v, '%s is not None' % v, 'not %s is None' % v))
+
+
 def save_signals(fn):
-    got = with_locals_renamed(body_of(fn))
-    accepted = [
-        ['L0 = [getattr(signal, v0, None) for v0 in self._PRESERVED_SIGNALS]',
-         'self._saved_signals = [(v0, signal.getsignal(v0)) for v0 in L0 if v0]'],
-        ['self._saved_signals = [(v0, signal.getsignal(v0)) for v0 in [getattr(signal, v1, None) for v1 in self._PRESERVED_SIGNALS] if v0]'],
-    ]
-    return '.assignsFreshListOfAvailablePreserved' if got in accepted else '.unknown'
+    """`self._saved_signals` is ASSIGNED a fresh list of `(sig, signal.getsignal(sig))`, in the order of `self._PRESERVED_SIGNALS`, for
+    exactly the names the `signal` module has.  Spellings: comprehensions (one, or two through a local; filter `if sig` / `if sig is not
+    None`; inner list or generator) or an explicit loop that appends to a fresh list, getting the signal with `getattr(signal, name, None)`
+    plus a filter (`if sig:` around the append, or `if not sig: continue`) or with `try: getattr(signal, name) except AttributeError:
+    continue` (then the filter is optional)."""
+    ok, bad = '.assignsFreshListOfAvailablePreserved', '.unknown'
+    stmts = body_of(fn)
+    got = with_locals_renamed(stmts)
+    pairs = '(v0, signal.getsignal(v0))'
+    for inner in ('[getattr(signal, v1, None) for v1 in self._PRESERVED_SIGNALS]', '(getattr(signal, v1, None) for v1 in self._PRESERVED_SIGNALS)'):
+        for cond in ('v0', 'v0 is not None'):
+            if got == ['self._saved_signals = [%s for v0 in %s if %s]' % (pairs, inner, cond)]:
+                return ok
+    for cond in ('v0', 'v0 is not None'):
+        for first in ('L0 = [getattr(signal, v0, None) for v0 in self._PRESERVED_SIGNALS]', 'L0 = (getattr(signal, v0, None) for v0 in self._PRESERVED_SIGNALS)'):
+            if got == [first, 'self._saved_signals = [%s for v0 in L0 if %s]' % (pairs, cond)]:
+                return ok
+    # the explicit loop
+    if len(stmts) == 3 and isinstance(stmts[0], ast.Assign) and len(stmts[0].targets) == 1 and isinstance(stmts[0].targets[0], ast.Name) \
+            and U(stmts[0].value) == '[]' and U(stmts[2]) == 'self._saved_signals = %s' % stmts[0].targets[0].id:
+        acc, loop = stmts[0].targets[0].id, stmts[1]
+    elif len(stmts) == 2 and U(stmts[0]) == 'self._saved_signals = []':
+        acc, loop = 'self._saved_signals', stmts[1]
+    else:
+        return bad
+    if not (isinstance(loop, ast.For) and not loop.orelse and isinstance(loop.target, ast.Name) and U(loop.iter) == 'self._PRESERVED_SIGNALS'):
+        return bad
+    name, body = loop.target.id, list(loop.body)
+    if not body:
+        return bad
+    # how the signal number is obtained
+    g = body.pop(0)
+    filtered = False
+    if isinstance(g, ast.Assign) and len(g.targets) == 1 and isinstance(g.targets[0], ast.Name) and U(g.value) == 'getattr(signal, %s, None)' % name:
+        sig = g.targets[0].id
+    elif isinstance(g, ast.Try) and not g.orelse and not g.finalbody and len(g.body) == 1 and isinstance(g.body[0], ast.Assign) \
+            and len(g.body[0].targets) == 1 and isinstance(g.body[0].targets[0], ast.Name) and U(g.body[0].value) == 'getattr(signal, %s)' % name \
+            and len(g.handlers) == 1 and g.handlers[0].type is not None and U(g.handlers[0].type) == 'AttributeError' \
+            and [U(x) for x in g.handlers[0].body] == ['continue']:
+        sig = g.body[0].targets[0].id
+        filtered = True          # a missing name never gets here, and an existing signal number is never None / falsy
+    elif '\n'.join(U(x) for x in [g] + body).count('getattr(signal, %s, None)' % name) == 3:
+        # the normaliser has put the local's (pure) defining expression in place of its uses
+        sig = 'getattr(signal, %s, None)' % name
+        body.insert(0, g)
+    else:
+        return bad
+    append = '%s.append((%s, signal.getsignal(%s)))' % (acc, sig, sig)
+    if body and isinstance(body[0], ast.If) and not body[0].orelse and _filter_ok(body[0].test, sig, negated=True) and [U(x) for x in body[0].body] == ['continue']:
+        body.pop(0)
+        filtered = True
+    if len(body) == 1 and isinstance(body[0], ast.If) and not body[0].orelse and _filter_ok(body[0].test, sig) and [U(x) for x in body[0].body] == [append]:
+        return ok
+    if len(body) == 1 and filtered and U(body[0]) == append:
+        return ok
+    return bad
 
 
 def restore_signals(fn):
